@@ -24,6 +24,9 @@ import (
 	"fmt"
 
 	"github.com/go-jose/go-jose/v4"
+
+	"github.com/dadrus/heimdall/internal/heimdall"
+	"github.com/dadrus/heimdall/internal/x/errorchain"
 )
 
 const (
@@ -54,6 +57,24 @@ func (e *Entry) JWK() jose.JSONWebKey {
 		Use:          "sig",
 		Certificates: e.CertChain,
 	}
+}
+
+// CheckJOSESupport returns an error if the key of this entry cannot be represented as JWK,
+// respectively be used with JOSE algorithms. In that case JWK and JOSEAlgorithm panic.
+func (e *Entry) CheckJOSESupport() error {
+	switch e.Alg {
+	case AlgRSA:
+		if e.KeySize == rsa2048 || e.KeySize == rsa3072 || e.KeySize == rsa4096 {
+			return nil
+		}
+	case AlgECDSA:
+		if e.KeySize == ecdsa256 || e.KeySize == ecdsa384 || e.KeySize == ecdsa512 {
+			return nil
+		}
+	}
+
+	return errorchain.NewWithMessagef(heimdall.ErrConfiguration,
+		"unsupported %s key size %d for key with id=%s", e.Alg, e.KeySize, e.KeyID)
 }
 
 func (e *Entry) JOSEAlgorithm() jose.SignatureAlgorithm {
